@@ -84,5 +84,11 @@ def run(prop, tier, ev):
             if not (r.error or '').startswith('invariant:'):
                 raise MachineryError('the pre-fix model %s is not rejected by TLC (%s)' % (kw, r.error))
             wit['prefix %s %s' % (kw['Kind'].strip('"'), kw['Ending'].strip('"'))] = r.error
+    if prop == 'C06':
+        for kw in (dict(Kind='"thread"', Persistent='TRUE', Items='2'), dict(Kind='"remote"', Persistent='TRUE', Items='2')):
+            r = tlc.run('OneShot', cfg_text=cfg(['Inv_C06_Ends'], live=False, Fixed='FALSE', **kw), workers=2, must_complete=False, name='prefix')
+            if r.error != 'invariant:Inv_C06_Ends':
+                raise MachineryError('the pre-fix model %s is not rejected by TLC for C06_Ends (%s)' % (kw, r.error))
+            wit['prefix %s persistent: stream never ends' % kw['Kind'].strip('"')] = r.error
     ev.cov['witnesses'] = wit
     return allowed
